@@ -108,28 +108,51 @@ theorem validDiagonal_shape (P Q : Prop) [Decidable P] [Decidable Q] (X : Bool) 
     decide ((P ∧ Q) ∧ X = true) = (decide P && decide Q && X) := by
   by_cases hP : P <;> by_cases hQ : Q <;> cases X <;> simp [hP, hQ]
 
-/-- `_get_leftmost` on a ring of three nodes: the running "first strict minimum of x" scan of
-the hand model (`(position, x)` pairs) picks what the generated decision tree picks. -/
-theorem leftmost3_shape {β : Type} (f : Nat → β) (x0 x1 x2 : α) :
-    f (let s1 : Nat × α := if x1 < x0 then (1, x1) else (0, x0)
-       let s2 : Nat × α := if x2 < s1.2 then (2, x2) else s1
+/-- The update test of `_get_leftmost`, on bare points:
+`p.x < best.x or (p.x == best.x and p.y < best.y)`. -/
+def lexLt (p best : V2 α) : Prop := p.x < best.x ∨ (p.x = best.x ∧ p.y < best.y)
+
+instance (p best : V2 α) : Decidable (lexLt p best) := by unfold lexLt; infer_instance
+
+/-- A point is not lexicographically left of itself. -/
+@[simp] theorem lexLt_self (p : V2 α) : ¬ lexLt p p := by
+  simp [lexLt]
+
+/-- The translator's rendering of `if a or (b and c)` as nested `if`s with duplicated
+branches is the single `if` on the lexicographic test. -/
+theorem ite_lex {β : Type} (p b : V2 α) (T F : β) :
+    (if p.x < b.x then T else if p.x = b.x then (if p.y < b.y then T else F) else F) =
+      if lexLt p b then T else F := by
+  unfold lexLt
+  by_cases h1 : p.x < b.x <;> by_cases h2 : p.x = b.x <;> by_cases h3 : p.y < b.y <;>
+    simp [h1, h2, h3]
+
+/-- `_get_leftmost` on a ring of three nodes: the running "first lexicographic minimum" scan of
+the hand model (`(position, point)` pairs) picks what a decision tree on the same tests
+picks. -/
+theorem leftmost3_shape {β : Type} (f : Nat → β) (p0 p1 p2 : V2 α) :
+    f (let s1 : Nat × V2 α := if lexLt p1 p0 then (1, p1) else (0, p0)
+       let s2 : Nat × V2 α := if lexLt p2 s1.2 then (2, p2) else s1
        s2.1) =
-    (if x1 < x0 then (if x2 < x1 then f 2 else f 1) else (if x2 < x0 then f 2 else f 0)) := by
-  by_cases h1 : x1 < x0 <;> by_cases h2 : x2 < x1 <;> by_cases h3 : x2 < x0 <;>
+    (if lexLt p1 p0 then (if lexLt p2 p1 then f 2 else f 1)
+     else (if lexLt p2 p0 then f 2 else f 0)) := by
+  by_cases h1 : lexLt p1 p0 <;> by_cases h2 : lexLt p2 p1 <;> by_cases h3 : lexLt p2 p0 <;>
     simp [h1, h2, h3]
 
 /-- `_get_leftmost` on a ring of four nodes. -/
-theorem leftmost4_shape {β : Type} (f : Nat → β) (x0 x1 x2 x3 : α) :
-    f (let s1 : Nat × α := if x1 < x0 then (1, x1) else (0, x0)
-       let s2 : Nat × α := if x2 < s1.2 then (2, x2) else s1
-       let s3 : Nat × α := if x3 < s2.2 then (3, x3) else s2
+theorem leftmost4_shape {β : Type} (f : Nat → β) (p0 p1 p2 p3 : V2 α) :
+    f (let s1 : Nat × V2 α := if lexLt p1 p0 then (1, p1) else (0, p0)
+       let s2 : Nat × V2 α := if lexLt p2 s1.2 then (2, p2) else s1
+       let s3 : Nat × V2 α := if lexLt p3 s2.2 then (3, p3) else s2
        s3.1) =
-    (if x1 < x0 then
-      (if x2 < x1 then (if x3 < x2 then f 3 else f 2) else (if x3 < x1 then f 3 else f 1))
+    (if lexLt p1 p0 then
+      (if lexLt p2 p1 then (if lexLt p3 p2 then f 3 else f 2)
+       else (if lexLt p3 p1 then f 3 else f 1))
      else
-      (if x2 < x0 then (if x3 < x2 then f 3 else f 2) else (if x3 < x0 then f 3 else f 0))) := by
-  by_cases h1 : x1 < x0 <;> by_cases h2 : x2 < x1 <;> by_cases h3 : x2 < x0 <;>
-    by_cases h4 : x3 < x2 <;> by_cases h5 : x3 < x1 <;> by_cases h6 : x3 < x0 <;>
+      (if lexLt p2 p0 then (if lexLt p3 p2 then f 3 else f 2)
+       else (if lexLt p3 p0 then f 3 else f 0))) := by
+  by_cases h1 : lexLt p1 p0 <;> by_cases h2 : lexLt p2 p1 <;> by_cases h3 : lexLt p2 p0 <;>
+    by_cases h4 : lexLt p3 p2 <;> by_cases h5 : lexLt p3 p1 <;> by_cases h6 : lexLt p3 p0 <;>
     simp [h1, h2, h3, h4, h5, h6]
 
 end earcut
